@@ -11,6 +11,20 @@ CHECKS = {
              note=_TB + ' Assumed dependency contracts: dateutil.relativedelta(d1,d2).years and dateutil.parser.parse on ISO dates '
                   '(cross-checked against dateutil on every run; exhaustively over 9 meeting years in the thorough tier). Meeting year >= 2.',
              technique='contract-based deductive verification: symbolic execution of the real functions -> VCs in LIA -> z3'),
+ 'C04': dict(category='proof',
+             text='All union equalities (general pattern = union of families; six composites) and the pairwise disjointness of the four '
+                  'measurement kinds, plus disjointness of every pair of first-match classifier answers with different units, are '
+                  'regular-language queries over all Unicode strings (no length bound), each decided unsat by z3.',
+             note=_TB + ' Assumes re.match succeeds iff the string is in the regular language of the pattern parse tree ($ = end or before a '
+                  'final newline); the translator is validated against the real re engine on ~1000 strings x 22 patterns every run.',
+             technique='regular-language inclusion/emptiness obligations generated from the compiled patterns and the explored classifiers; z3 regex solver'),
+ 'C19': dict(category='proof',
+             text='Per-call contract of schema_valid / valid_against_schema over an arbitrary cache satisfying the ghost invariant '
+                  '(entry = uncached answer, size <= 20), and the contract of _add_to_cache over a symbolic dict (stored, frame, size bound), '
+                  'all discharged by z3; every history follows by induction. Bundled samples evaluated through the real functions.',
+             note=_TB + ' jsonschema/json/file contents assumed deterministic; induction over histories is a meta-argument; a random-history '
+                  'stand-in on the real code (fresh interpreter) runs as a second line, labelled bounded.',
+             technique='contract-based deductive verification with ghost cache invariant (symbolic execution -> z3) + ground evaluation of bundled files'),
 }
 _NYB = 'check not built yet in this build round (planned, see DESIGN.md §5); no claim is made'
-NOT_APPLICABLE = {p: _NYB for p in ['C01','C02','C03','C04','C05','C06','C07','C08','C09','C10','C11','C12','C14','C15','C16','C17','C18','C19']}
+NOT_APPLICABLE = {p: _NYB for p in ['C01','C02','C03','C05','C06','C07','C08','C09','C10','C11','C12','C14','C15','C16','C17','C18']}
